@@ -15,6 +15,8 @@ def items(tier):
                 out.append({"id": "C01|%s|%s|L%d|%s" % (p, api, L, alpha or "full"), "Harness": "C01", "Pattern": p, "API": api, "L": L, "Alpha": alpha,
                             "strategy": strat, "reach": ["match", "nomatch"] if L == maxL else None})
         out.append({"id": "C01|%s|MatchString|L2|%s" % (p, alpha or "full"), "Harness": "C01", "Pattern": p, "API": "MatchString", "L": 2, "Alpha": alpha, "strategy": strat})
+        for pre, post in corpus.windows(p):
+            out.append({"id": "C01|%s|Match|L%d|%s|w%s+%s" % (p, maxL, alpha or "full", pre.encode().hex(), post.encode().hex()), "Harness": "C01", "Pattern": p, "API": "Match", "L": maxL, "Alpha": alpha, "Pre": pre, "Post": post, "strategy": strat})
     return out
 
 
